@@ -1,6 +1,6 @@
 #!/bin/bash
 # regenerates every evidence file with the quick tier on the current tree (sequential)
-cd /verif
+cd "$(dirname "$(readlink -f "$0")")"
 for id in $(python3 -c "import json;print(' '.join(c['property_id'] for c in json.load(open('MANIFEST.json'))['checks']))"); do
   ./check $id ${1:-quick} | tail -1
 done
